@@ -7,7 +7,8 @@ ASSUMPTIONS = [
     "(the lock table is re-derived from tree.go by a go/ast pass on every run; the theorems are about sequential histories)",
     "values are compared with Go's == on interface{}; the model uses natural numbers (the harness stores small ints); values are non-nil",
     "concurrent clause: checked on runs where goroutines use pairwise disjoint topics and values (answers determined by C05_commute); "
-    "histories with overlapping keys are covered only by the lock table and the race detector",
+    "histories with overlapping keys: short timestamped histories (<= 16 operations) checked by the proved-sound linearizability checker; "
+    "the clock is one atomic counter read before the call and after the return, so real-time precedence is under-approximated, never invented",
 ]
 
 
@@ -45,6 +46,15 @@ def run(ck):
         elif l.startswith("diff "):
             tie_only.append(l)
 
+    # a recorded concurrent history is re-checked as recorded
+    if ck.replay and any(l.startswith("lin ") for l in open(ck.replay).read().splitlines()):
+        lpath, _ = ck.harness("c05lin", extra=extra)
+        for l in ck.model("topic", "c05lin", lpath):
+            if l.startswith("propfail lin "):
+                hist = l.split("history: ", 1)[1] if "history: " in l else ""
+                ck.fail_input("lin", l[:400], ["lin %s %s" % (l.split()[2], hist), l])
+                witnessed = True
+
     # lock table + concurrent runs
     if not ck.replay:
         bins = [(ck.harness_bin, "c05conc.txt")]
@@ -80,6 +90,31 @@ def run(ck):
                     witnessed = True
                 elif l.startswith("diff "):
                     tie_only.append(l)
+        # (iii) timestamped histories on overlapping topics/values, checked by the extracted Lin.lin_verdict
+        for b, name in [(x, n.replace("c05conc", "c05lin")) for x, n in bins]:
+            before = len(ck.broken)
+            lpath, out = ck.harness("c05lin", out_name=name, binary=b)
+            text = "\n".join(out)
+            if "DATA RACE" in text or "concurrent map" in text:
+                del ck.broken[before:]
+                ck.fail_input("race", "data race reported while running c05lin (%s)" % name,
+                              [l for l in out if not l.startswith("stat ")][:120])
+                witnessed = True
+                # histories recorded before the abort are still checked below
+            elif len(ck.broken) > before:
+                continue
+            if not os.path.exists(lpath):
+                continue
+            for l in ck.model("topic", "c05lin", lpath):
+                if l.startswith("propfail lin "):
+                    w = l.split(" ", 3)
+                    hist = l.split("history: ", 1)[1] if "history: " in l else ""
+                    ck.fail_input("lin", l[:400], ["lin %s %s" % (w[2], hist), l])
+                    witnessed = True
+                elif l.startswith("note lin "):
+                    for kv in l.split()[2:]:
+                        k, v = kv.split("=")
+                        ck.stats["lin_" + k] = ck.stats.get("lin_" + k, 0) + int(v)
         ck.extra["lock_table_ok"] = not lock_broken
         if lock_broken and not witnessed:
             # the syntactic lock discipline no longer checks; the concurrent runs found no failing schedule
@@ -97,6 +132,9 @@ def run(ck):
                "operations over that universe and over a 16-topic / 4-value one (empty levels, leading/trailing separators, UTF-8); every "
                "returned slice is kept and re-compared after every later operation (%s snapshot comparisons); lock table of %s exported "
                "methods; %s concurrent runs of 2..16 goroutines (%s operations) on disjoint topics/values under shared ancestors; "
+               "%s timestamped histories of 2..8 goroutines x 1..4 operations on overlapping topics/values (%s of them with really overlapping "
+               "operations, %s undecided within the node budget) checked for linearizability against the map specification; "
                "distinct_nontrivial = distinct (model state, spec state, observed answers) triples + lock rows + concurrent runs"
                % (ck.stats.get("exhaustive_depth"), ck.stats.get("alphabet"), ck.stats.get("snapshot_checks"),
-                  ck.stats.get("lock_table_rows"), ck.stats.get("concurrent_runs"), ck.stats.get("concurrent_ops")))
+                  ck.stats.get("lock_table_rows"), ck.stats.get("concurrent_runs"), ck.stats.get("concurrent_ops"),
+                  ck.stats.get("lin_histories"), ck.stats.get("lin_concurrent"), ck.stats.get("lin_undecided")))
